@@ -38,6 +38,7 @@ AGGKEYS = z3.Const("aggregation_keywords", SeqS)
 GRPKEYS = z3.Const("group_keywords", SeqS)
 OBJKEYS = z3.Const("object_keywords", SeqS)
 endkw = z3.Function("end_keyword_of", S, S)
+DOC = z3.Const("self_doc_on_entry", S)
 GCONST = {}
 
 
@@ -237,7 +238,7 @@ class TokTheory(ObjTheory):
             if attr in ("modcls", "grpcls", "objcls", "lexer"):
                 return FuncV("field:" + attr)
             if attr == "doc":
-                return Z("str", fresh("doc", S))
+                return Z("str", DOC)
             if attr == "errors":
                 ex.st.th["self.errors_n"] = fresh("errors_n", I)
                 return ObjV("errors")
